@@ -18,6 +18,7 @@ fn main() {
             ("child-recover", crash::child_recover),
             ("mani-child-run", manicheck::child_run),
             ("mani-child-recover", manicheck::child_recover),
+            ("mani-child-io", manicheck::child_io),
         ],
     );
 }
